@@ -1,9 +1,62 @@
 (** C12 — property theorems (statements + [exact] + [Print Assumptions] only). *)
 From RainVerif Require Import Params.
 From RainVerif.model Require Import Bytes Crc Log LogScript.
-From RainVerif.proofs Require Import CrcProofs.
+From RainVerif.proofs Require Import CrcProofs LogProofs.
 Open Scope N_scope.
 
 Theorem C12_checksum_unmask_mask : forall c, c < two32 -> unmask_checksum (mask_checksum c) = c.
 Proof. exact unmask_mask. Qed.
 Print Assumptions C12_checksum_unmask_mask.
+
+(** Every claimed history (any number of writer sessions, each re-opening the file, each possibly
+    dying between two fragments of one more record; optionally one final truncation at any byte)
+    is read back as exactly the complete records, in order, without a panic. *)
+Theorem C12_log_script_correct : forall ops l,
+  log_script_spec ops = Some l -> log_read_all true (fst (log_script_run ops)) = (l, false).
+Proof. exact log_script_correct_inst. Qed.
+Print Assumptions C12_log_script_correct.
+
+Theorem C12_roundtrip : forall sessions : list (list bytes),
+  log_read_all true (log_write_sessions [] sessions) = (concat sessions, false).
+Proof. exact log_roundtrip_inst. Qed.
+Print Assumptions C12_roundtrip.
+
+(** Truncation at any byte [n]: the reader returns a prefix of the appended records, and that
+    prefix consists of exactly the records whose end offset [e] (as computed by [sess_records]
+    inside [script_run]) is at most [n], i.e. all complete records. *)
+Theorem C12_truncation : forall (sessions : list (list bytes)) (n : N),
+  let st := log_script_run (map (fun s => LSess s None) sessions) in
+  fst st = log_write_sessions [] sessions /\
+  map fst (snd st) = concat sessions /\
+  exists k,
+    log_read_all true (takeN n (log_write_sessions [] sessions))
+      = (firstn k (concat sessions), false) /\
+    forall j r e, nth_error (snd st) j = Some (r, e) -> (e <= n <-> (j < k)%nat).
+Proof. exact log_truncation_inst. Qed.
+Print Assumptions C12_truncation.
+
+(** Sensitivity witness: the reader without fragment sequencing (the code before the fix for D9)
+    violates the specification. *)
+Theorem C12_unfixed_reader_refuted :
+  exists ops l,
+    script_spec 32 7 crc32c ops = Some l /\
+    read_all 32 7 crc32c false (script_file 32 7 crc32c ops) <> (l, false).
+Proof. exact unfixed_reader_refuted. Qed.
+Print Assumptions C12_unfixed_reader_refuted.
+
+(** Non-vacuity (block size 32): three sessions, a 60 byte record spanning three blocks, a session
+    interrupted after two fragments, a "partial" record that is in fact complete, and a final
+    truncation inside the last long record. *)
+Example C12_example_small_block :
+  let r60 := repeat 66 60 in
+  let ops := [LSess [r60; [1; 2; 3]] (Some (r60, 2%nat));
+              LSess [[4; 5]] (Some ([9; 9; 9], 1%nat));
+              LSess [r60; [7]] None;
+              LTrunc 250] in
+  script_spec 32 7 crc32c ops = Some [r60; [1; 2; 3]; [4; 5]; [9; 9; 9]] /\
+  read_all 32 7 crc32c true (script_file 32 7 crc32c ops)
+    = ([r60; [1; 2; 3]; [4; 5]; [9; 9; 9]], false) /\
+  read_all 32 7 crc32c false (script_file 32 7 crc32c ops)
+    <> ([r60; [1; 2; 3]; [4; 5]; [9; 9; 9]], false).
+Proof. vm_compute. split; [reflexivity|]. split; [reflexivity|]. intros E; discriminate E. Qed.
+Print Assumptions C12_example_small_block.
